@@ -295,6 +295,8 @@ def expected(pre, op, pool):
         return {"view": v}
 
     if k == "add_model_mets":
+        if len(set(op[1])) < len(op[1]):
+            return None     # the same object twice in one call: undocumented (the invariants still apply afterwards)
         for n in op[1]:
             pv = pool["met:" + n]
             if pv["id"] not in M:
